@@ -7,7 +7,7 @@
        applied to public quantities only ([*_leak_snd]), hence equal for any two keys
        (key schedules), IVs and messages of the same length. *)
 From Coq Require Import List NArith Bool Arith Lia.
-From IMB Require Import Lib.Bytes Spec.DES Spec.KASUMI Spec.SNOW3G Struct.Leak.
+From IMB Require Import Lib.Bytes Spec.DES Spec.KASUMI Spec.SNOW3G Gen.GenC19 Struct.Leak.
 Import ListNotations.
 Local Open Scope N_scope.
 
@@ -127,7 +127,7 @@ Qed.
 (** * DES                                                                     *)
 (* ------------------------------------------------------------------------- *)
 Lemma des_sbox_rows_concat : forall Sb,
-  concat (des_sbox_rows Sb) = des_sbox_flat Sb ++ repeat 0 192.
+  concat (des_sbox_rows Sb) = des_sbox_flat Sb ++ repeat 0 (des_lookup_elems - 64).
 Proof.
   intros. unfold des_sbox_rows. apply concat_rows_of.
   rewrite app_length, repeat_length. unfold des_sbox_flat. rewrite map_length, seq_length.
@@ -162,12 +162,12 @@ Qed.
 Lemma des_S_leak_fst : forall x, fst (des_S_leak x) = des_S x.
 Proof. intros. unfold des_S_leak. rewrite des_S_leak_aux_fst. reflexivity. Qed.
 
-Lemma des_sbox_rows_length : forall Sb, length (des_sbox_rows Sb) = 64%nat.
+Lemma des_sbox_rows_length : forall Sb, length (des_sbox_rows Sb) = des_scan_rows.
 Proof. intros. apply rows_of_length. Qed.
 
 Lemma des_S_leak_aux_snd : forall sb x,
   snd (des_S_leak_aux sb x) =
-  flat_map (fun j => scan_trace (R_des_sbox j) SITE_LOOKUP32 64 0) (rev (map fst sb)).
+  flat_map (fun j => scan_trace (R_des_sbox j) SITE_LOOKUP32 des_scan_rows 0) (rev (map fst sb)).
 Proof.
   induction sb as [|[j Sb] t IH]; intros x; cbn [des_S_leak_aux map fst rev].
   - reflexivity.
@@ -480,13 +480,16 @@ Lemma kasumi_S7_length : length kasumi_S7 = 128%nat.
 Proof. vm_compute. reflexivity. Qed.
 Lemma kasumi_S9_length : length kasumi_S9 = 512%nat.
 Proof. vm_compute. reflexivity. Qed.
-Lemma kasumi_S7_rows_concat : concat kasumi_S7_rows = kasumi_S7 ++ repeat 0 128.
+Lemma kasumi_S7_rows_concat : concat kasumi_S7_rows = kasumi_S7 ++ repeat 0 (kasumi_S7_lookup_elems - 128).
 Proof.
   unfold kasumi_S7_rows. apply concat_rows_of.
   rewrite app_length, repeat_length, kasumi_S7_length. reflexivity.
 Qed.
-Lemma kasumi_S9_rows_concat : concat kasumi_S9_rows = kasumi_S9.
-Proof. unfold kasumi_S9_rows. apply concat_rows_of. rewrite kasumi_S9_length. reflexivity. Qed.
+Lemma kasumi_S9_rows_concat : concat kasumi_S9_rows = kasumi_S9 ++ repeat 0 (kasumi_S9_lookup_elems - 512).
+Proof.
+  unfold kasumi_S9_rows. apply concat_rows_of.
+  rewrite app_length, repeat_length, kasumi_S9_length. reflexivity.
+Qed.
 
 (* for EVERY x (outside the tables both sides are 0) *)
 Lemma S7_leak_fst : forall x, fst (S7_leak x) = S7 x.
@@ -498,7 +501,13 @@ Proof.
     rewrite nth_repeat0. symmetry. apply nth_overflow. rewrite kasumi_S7_length. exact H.
 Qed.
 Lemma S9_leak_fst : forall x, fst (S9_leak x) = S9 x.
-Proof. intros. unfold S9_leak, S9. rewrite scan_correct, kasumi_S9_rows_concat. reflexivity. Qed.
+Proof.
+  intros. unfold S9_leak, S9. rewrite scan_correct, kasumi_S9_rows_concat.
+  destruct (Nat.ltb_spec (N.to_nat x) 512) as [H|H].
+  - apply app_nth1. rewrite kasumi_S9_length. exact H.
+  - rewrite app_nth2 by (rewrite kasumi_S9_length; exact H).
+    rewrite nth_repeat0. symmetry. apply nth_overflow. rewrite kasumi_S9_length. exact H.
+Qed.
 Lemma S7_leak_snd : forall x, snd (S7_leak x) = S7_trace.
 Proof. intros. unfold S7_leak. rewrite scan_snd. unfold kasumi_S7_rows. rewrite rows_of_length. reflexivity. Qed.
 Lemma S9_leak_snd : forall x, snd (S9_leak x) = S9_trace.
